@@ -92,4 +92,4 @@ def mutate(rng, line):
     elif k == 2 and bs: del bs[rng.randrange(len(bs)):]
     elif k == 3 and bs: bs[rng.randrange(len(bs))] = rng.choice([0, 1, 2, 255])
     else: tg = tg[:rng.randrange(len(tg) + 1)]
-    return 'visit %s %s' % (bytes(tg).hex(), bytes(bs).hex())
+    return 'visit %s %s' % (bytes(tg).hex() or '-', bytes(bs).hex() or '-')
